@@ -371,7 +371,7 @@ fn main() {
         replay_bytes,
     );
 
-    let cases = h.tier.pick(60_000, 2_000_000);
+    let cases = h.tier.pick(150_000, 2_000_000);
     h.check(
         "c05.random",
         "proptest tapes -> streams of 1-6 segments (valid messages over the mini fixture incl. payload newlines, byte-mutated valid messages, garbage tokens, random bytes) x random N x random CAP x random read schedule x random Pending script, through run and process; non-trivial = produced handler/error events and (response did not fit, or N < stream length, or a read boundary inside the stream)",
@@ -380,7 +380,7 @@ fn main() {
         |case| replay_tape(case, |tape, st| random_prop(&model, &ix, tape, st)),
     );
 
-    let cases = h.tier.pick(40_000, 1_000_000);
+    let cases = h.tier.pick(150_000, 1_000_000);
     h.check(
         "c05.smallbuf",
         "one valid query of the fixture with a generated return value, response capacity 0..=64 / process buffer N: if the predicted response does not fit at least one error must be reported (never a panic, never silence), if it fits the exact bytes must appear; non-trivial = the response did not fit",
